@@ -292,8 +292,11 @@ func main() {
 		if b, ok := sw.batches.Load(e); ok {
 			w.SharedBatch = b.([][]interface{})
 		}
-		if p := syncapi.Call(e, m, w.Args(m, rng)); p != "" {
-			notePanic(fmt.Sprintf("model=%s method=%s: %s", sw.name, m.Name, p))
+		// the results are read (printed) after the call has returned and released the lock: a listing that is a
+		// view of the stored lists instead of a copy is then read while writers edit those lists
+		outs := syncapi.CallOn(e, m, w.Args(m, rng))
+		if len(outs) == 1 && strings.HasPrefix(outs[0], "panic: ") {
+			notePanic(fmt.Sprintf("model=%s method=%s: %s", sw.name, m.Name, strings.TrimPrefix(outs[0], "panic: ")))
 		}
 		atomic.AddInt64(&progress, 1)
 	}
